@@ -446,7 +446,11 @@ impl<'a, 'src: 'a> Compiler<'a, 'src> {
   /// Emit byte code for a return
   fn emit_return(&mut self, line: u32) {
     match self.fun_kind {
-      FunKind::Initializer => self.emit_byte(SymbolicByteCode::GetLocal(0), line),
+      // self is boxed when a closure inside the initializer captures it
+      FunKind::Initializer => match self.resolve_local(SELF) {
+        Some((slot, state)) => self.emit_local_get(state, slot, line),
+        None => self.emit_byte(SymbolicByteCode::GetLocal(0), line),
+      },
       _ => self.emit_byte(SymbolicByteCode::Nil, line),
     }
 
